@@ -12,7 +12,7 @@ from ..actors import InjectedFault
 from ..loop import PAUSE, Cancel, make_lock_type
 from ..runner import Outcome
 from ..tools import lib
-from .common import COMPONENTS_BASE, run_sim, new_sim, finish_outcome
+from .common import set_interrupts, COMPONENTS_BASE, run_sim, new_sim, finish_outcome
 
 PID = "C12"
 LEVEL = "exploration"
@@ -293,7 +293,7 @@ def gen_conc(ch):
 
 
 def run_conc(sc, st, ctx, out, sim):
-    sim.interrupt_den = (0, 0, 5, 2)[sc.interrupt]
+    set_interrupts(sim, (0, 0, 5, 2)[sc.interrupt])
     state = TickState()
     runs = []
     lock_type = make_lock_type(sim, sc.lock_policy, sc.lock_acq, sc.lock_rel) if sc.lock else None
